@@ -31,8 +31,11 @@ def leaves(tree):
 
 
 def check_one(arg):
+    if arg[0] == "src":
+        # a catalogue entry: the property speaks about ACCEPTED programs, so a rejected entry is skipped
+        _, std, src, keep = arg
+        return check_source(src, std, keep, dict(std=std, keep_comments=keep, source=src, catalogue=True), False)
     std, seed, v = arg
-    import fp
     st, _ = gen.gen_program(seed, std, size=0.6)
     keep = v % 2 == 1
     rng = random.Random(seed * 7 + v)
@@ -41,9 +44,15 @@ def check_one(arg):
     else:
         L = layout.free_layout(st, rng, gen.USER_NAMES, comments=True, p_comment=0.25, p_break=0.2)
         src = L.text()
-    rep = dict(std=std, seed=seed, variant=v, keep_comments=keep, source=src)
+    return check_source(src, std, keep, dict(std=std, seed=seed, variant=v, keep_comments=keep, source=src), True)
+
+
+def check_source(src, std, keep, rep, must_parse):
+    import fp
     o1 = fp.parse(src, std=std, ignore_comments=not keep)
     if o1.kind != "tree":
+        if not must_parse and o1.kind in ("syntax", "none"):
+            return [], 0
         return [("valid_program_rejected", "parse(P): %s line %s %r" % (o1.kind, o1.line, o1.text), rep)], 0
     t1 = o1.tree
     s1 = str(t1)
@@ -91,6 +100,13 @@ def run(ctx):
     corr = engine_corr.corr_cases(cc)
     corr["samples"] = [dict(std=cc[0][0], source=cc[0][1][:600])]
     jobs = [(("f2003", "f2008")[k % 2], ctx.seed * 409 + k // 8, k % 4) for k in range(ctx.n(500, 16000))]
+    # catalogue of less usual statement forms and of entities named like keywords (whatever parses must round-trip)
+    import catalogue
+    import kwnames
+    cat = catalogue.sources() if not ctx.quick else catalogue.sources()[ctx.seed % 3::3]
+    kww = [w for w in kwnames.WRAPS if w != "%s\n"]
+    cat += kwnames.exhaustive(ctx.seed, kww)[ctx.seed % 4::4 if ctx.quick else 1] + kwnames.sources(ctx.rng, ctx.n(100, 6000), wraps=kww)
+    jobs += [("src", ("f2003", "f2008")[k % 2], src, k % 3 == 0) for k, src in enumerate(cat)]
     failures = []
     nleaf = 0
     for job, (st, r) in zip(jobs, pool.pmap(check_one, jobs, chunksize=8)):
@@ -101,7 +117,10 @@ def run(ctx):
             nleaf += n
             failures += [(s, d, dict(rep, job=list(job))) for s, d, rep in fl]
     e2e = dict(cases=len(jobs), distinct=len(set(jobs)), failures=failures, statements_printed=nleaf,
-               rule="generated programs (canonical and free-form layouts with comments), both standards, comments "
+               catalogue_entries=len(cat),
+               rule="a catalogue of less usual statement forms (empty / doubled optional parts, subscripted designators of "
+                    "CALL and function references, every declaration attribute statement) and statements whose entity names "
+                    "coincide with keywords, in five program-unit wrappers: whatever parses must round-trip; generated programs (canonical and free-form layouts with comments), both standards, comments "
                     "discarded / retained: T = parse(P) exists; the non-blank lines of str(T) are the leaves of T in "
                     "order (print model); parse(str(T)) is structurally identical to T (canonical repr); "
                     "str(parse(str(T))) == str(T) modulo trailing blanks and block:N names",
@@ -115,4 +134,6 @@ def run(ctx):
 
 
 def replay(ctx, data):
+    if data.get("catalogue"):
+        return not check_source(data["source"], data["std"], data["keep_comments"], {}, False)[0]
     return not check_one(tuple(data["job"]))[0]
